@@ -8,10 +8,11 @@
   `Nat → VSt`.  Addresses are `Nat`; `M` is the module account of x/liquid.  Dec values are bit-exact
   `KV.Dec` (18 decimals).  Core Lean only.
 
-  The code is transcribed *as it is*, defects included.  Each of the three suspected defects has a
-  switch in `Cfg`; `cfg` (bottom of the first section) is the configuration of the code that exists in
-  /repo and is the only thing the driver uses.  The theorems are stated for `Cfg.current` (counterexample
-  + partial) and for `Cfg.fixed` (full).
+  The code is transcribed *as it is*.  Three defects found with this model (findings/C12-*.md) were repaired
+  in /repo by the fix commits 932d1f99a, 96498654b, 66dfa73a4; each repair is a switch in `Cfg`.  `cfg` (bottom
+  of the first section) is the configuration of the code that exists in /repo — all three switches on — and is
+  the only thing the driver uses; the property theorems are about `cfg`.  `Cfg.current` (all off) is the code
+  before the three commits, kept for the historical witnesses in Props/C12.lean.
 -/
 import KavaVerif.Num.Dec
 
@@ -19,7 +20,7 @@ namespace KV.Liquid
 
 abbrev Addr := Nat
 
-/-- which repairs are applied.  `false` everywhere = the unchanged tree. -/
+/-- which repairs are applied.  `false` everywhere = the tree before the three fix commits. -/
 structure Cfg where
   /-- F6 repair: MintDerivative mints ⌊shares received by the module⌋ instead of ⌊shares sent⌋ -/
   mintReceived : Bool
@@ -33,8 +34,8 @@ deriving DecidableEq, Repr
 def Cfg.current : Cfg := { mintReceived := false, skipZeroDelegate := false, tallySkipUnbonded := false }
 def Cfg.fixed : Cfg := { mintReceived := true, skipZeroDelegate := true, tallySkipUnbonded := true }
 
-/-- THE ONE-LINE SWITCH: the configuration of the code in /repo (used by the driver).
-    After a `fix:` commit set the corresponding field to `true`. -/
+/-- THE ONE-LINE SWITCH: the configuration of the code in /repo (used by the driver and by Props/C12.lean).
+    All three repairs are committed in /repo (932d1f99a, 96498654b, 66dfa73a4). -/
 def cfg : Cfg := { mintReceived := true, skipZeroDelegate := true, tallySkipUnbonded := true }
 
 inductive Status where
